@@ -54,6 +54,45 @@ def run(ctx):
         diffs = [a for a, b in zip(impl_tab.split(), model_tab.split()) if a != b]
         ctx.report("ctxadd", "Parser::StatementContext operator+ differs from the Lean model on %s (model: %s)" % (diffs, model_tab),
                    {"theorem": "PsycheModel.StmtCtx.diag_iff_invalid", "impl": impl_tab, "model": model_tab}, no_input=True)
+    # --- (1b) guessRoleOfIdentifier: the real function vs the Lean model, exhaustively over short token strings
+    ALPHA = {"i": "x", "t": "int", "s": "static", "q": "const", "f": "inline", "a": "_Alignas", "b": "__attribute__", "*": "*", "(": "(", ")": ")",
+             "[": "[", "]": "]", ",": ",", ";": ";", "{": "{", "o": "3"}
+    OTHERS = ["3", "=", "+", "}", ":", "...", "\"s\"", "->", "1.5", "'c'", "sizeof", "return", "?"]
+    import itertools
+    strings = ["-"]
+    L = 3 if ctx.quick else 4
+    for n in range(1, L + 1):
+        strings += ["".join(t) for t in itertools.product(ALPHA, repeat=n)]
+    # whole groups: '(' inner ')' tail and '[' inner ']' tail, inner exhaustive over the classes the scan distinguishes
+    INNER = "i*()t,[]o;"
+    inners = [""] + ["".join(t) for n in range(1, (3 if ctx.quick else 4) + 1) for t in itertools.product(INNER, repeat=n)]
+    for inner in inners:
+        for tail in ("", ";", "{", ",", "(", "i"):
+            strings.append("(" + inner + ")" + tail)
+            if rng.random() < 0.3:
+                strings.append("[" + inner + "]" + tail)
+    for _ in range(3000 if ctx.quick else 60000):
+        strings.append("".join(rng.choice("it*()[],;{oq") for _ in range(rng.randrange(L + 1, 12))))
+    glines, mlines = [], []
+    for st in strings:
+        for c in (0, 1, 2):
+            for kr in (0, 1):
+                if st != "-" and len(st) > 2 and (c, kr) not in ((0, 0), (2, 0), (0, 1)) and rng.random() < 0.6:
+                    continue
+                text = "T " + " ".join((rng.choice(OTHERS) if ch == "o" else ALPHA[ch]) for ch in st if st != "-")
+                glines.append("guess %d %d %s" % (c, kr, text.encode().hex()))
+                mlines.append("%d %d %s" % (c, kr, st))
+    gimpl = stages.run_harness(ctx, "accept", glines)
+    gmodel = leanb.model("guessrole", "\n".join(mlines) + "\n")
+    ngd = 0
+    for gl, ml, a, b in zip(glines, mlines, gimpl, gmodel):
+        if a.strip() != b.strip():
+            ngd += 1
+            if ngd <= 3:
+                ctx.report("guess:" + ml, "Parser::guessRoleOfIdentifier answers %s, the Lean model %s, for the token classes [%s] after the identifier (context, K&R flag, classes: %s)"
+                           % (a, b, bytes.fromhex(gl.split()[3]).decode(), ml),
+                           {"component": "accept", "case": gl, "theorem": "PsycheModel.DeclTokens.guess_safe"}, no_input=True)
+    ctx.notes["guess_role_cases"] = len(glines)
     # --- (2) nestings
     nest = list(nestings(3))
     if not ctx.quick:
@@ -159,7 +198,7 @@ def run(ctx):
             ctx.report("blind:" + key, "%s; e.g. %r -> %s" % (w, text, o), {})
     ctx.cov.update({
         "evaluations": len(nest) + len(lines) + 16, "traces_validated_against_impl": len(nest) + 16, "distinct_nontrivial": nvalid + len(lines), "exhaustive": False,
-        "rule": "operator+ on all 16 context pairs (complete); every nesting of 11 wrappers x 5 leaves to depth 3 (7,320; thorough + depth 4 over 7 wrappers, quick a 25% sample of it); acceptance: generated programs from cgen (C11, K&R, C99), declgen, scopegen, typedefgen, ambiggen, typedgen that gcc -fsyntax-only accepts under the matching -std, parsed under c11+c17 (or c99), plus the declgen/typedefgen programs with their typedef/tag declarations removed",
+        "rule": "guessRoleOfIdentifier: the real function vs the model on every string of up to 3 (thorough 4) of 16 token classes x 3 contexts x K&R flag + random longer ones; operator+ on all 16 context pairs (complete); every nesting of 11 wrappers x 5 leaves to depth 3 (7,320; thorough + depth 4 over 7 wrappers, quick a 25% sample of it); acceptance: generated programs from cgen (C11, K&R, C99), declgen, scopegen, typedefgen, ambiggen, typedgen that gcc -fsyntax-only accepts under the matching -std, parsed under c11+c17 (or c99), plus the declgen/typedefgen programs with their typedef/tag declarations removed",
         "samples": [nest[100][0], good[0][2][:300], good[-1][2][:300]],
     })
     ctx.notes.update({"nestings": len(nest), "valid_nestings": nvalid, "programs_parsed": len(lines), "families": dict(fams), "rejected_by_gcc_and_dropped": dict(rej_gcc), "violations": nviol})
